@@ -5,6 +5,7 @@
 -/
 import EvalFilter.Model.Api
 import EvalFilter.Model.WF
+import EvalFilter.Model.OptCheck
 import EvalFilter.Spec.Oracle
 
 open EvalFilter
@@ -261,6 +262,23 @@ def runWf (c : Sexp) : String :=
   | none => id ++ " wfimpl=ok"
   | some (k, b) => id ++ s!" wfimpl=bad:body{k}:" ++ b.show
 
+/-- `(optv ID (body #raw #opt) …)`: validate every step the optimizer takes from the raw bytes the
+    evaluator REALLY compiled, and compare the result with the optimised bytes it REALLY holds -/
+def runOptv (c : Sexp) : String :=
+  let id := match c.args with | .atom i :: _ => i | _ => "?"
+  let bodies := (c.args.filter (fun x => x.tag == "body")).map (fun s =>
+    (rawBytes (s.args.headD (.atom "")), rawBytes ((s.args.drop 1).headD (.atom ""))))
+  let rec go (k : Nat) : List (Bytes × Bytes) → Option String
+    | [] => none
+    | (raw, opt) :: r =>
+      match OptCheck.fullTrace raw with
+      | none => some (s!"refused:body{k}:" ++ OptCheck.whyRefused raw)
+      | some L => if OptCheck.lastOf raw L == opt then go (k + 1) r else some s!"differs:body{k}"
+  let steps := (bodies.map (fun b => match OptCheck.fullTrace b.1 with | some L => L.length | none => 0)).foldl (· + ·) 0
+  match go 0 bodies with
+  | none => id ++ s!" optv=ok steps={steps}"
+  | some w => id ++ " optv=" ++ w ++ s!" steps={steps}"
+
 def runLine (line : String) : String :=
   match parseLine line with
   | none => "? bad-line"
@@ -268,6 +286,7 @@ def runLine (line : String) : String :=
     match c.tag with
     | "case" => runCase c
     | "wf" => runWf c
+    | "optv" => runOptv c
     | "oracle" => Spec.Oracle.run (c.args.map (fun a => match a with | .atom s => s | _ => ""))
     | _ => "? bad-op"
 
